@@ -93,6 +93,41 @@ impl Store {
     }
 }
 
+/// An object store that fails ONCE, on the next lookup of a chosen object (a transient `Find`
+/// error in the middle of a query).
+struct FailingFind<'a> {
+    inner: &'a gix_odb::Handle,
+    fail_on: std::cell::Cell<Option<gix_hash::ObjectId>>,
+    failed: std::cell::Cell<bool>,
+}
+
+impl gix_object::Find for FailingFind<'_> {
+    fn try_find<'b>(
+        &self,
+        id: &gix_hash::oid,
+        buffer: &'b mut Vec<u8>,
+    ) -> Result<Option<gix_object::Data<'b>>, gix_object::find::Error> {
+        if self.fail_on.get().as_deref() == Some(id) {
+            self.fail_on.set(None);
+            self.failed.set(true);
+            return Err("injected transient failure".into());
+        }
+        self.inner.try_find(id, buffer)
+    }
+}
+
+/// the commit whose lookup fails: a proper ancestor of the queried commits, in the middle of them
+fn victim(d: &Dag, q: &Query) -> Option<usize> {
+    let mut anc = d.anc(q.first);
+    for o in &q.others {
+        for (i, x) in d.anc(*o).iter().enumerate() {
+            anc[i] |= *x;
+        }
+    }
+    let cands: Vec<usize> = (0..d.n()).filter(|i| anc[*i] && *i != q.first && !q.others.contains(i)).collect();
+    cands.get(cands.len() / 2).copied()
+}
+
 fn run_phase(rep: &mut Report, ctx: &mut Ctx, repo: &Repo, store: &Store, d: usize, job: &mut Job, name: &str, last_phase: bool) {
     let odb = &store.odb;
     let cg = &store.cg;
@@ -179,6 +214,64 @@ fn run_phase(rep: &mut Report, ctx: &mut Ctx, repo: &Repo, store: &Store, d: usi
                             &op,
                         );
                     }
+                }
+            }
+        }
+        // ---- a query that fails part-way, then ordinary queries on the SAME Graph -----------------
+        // (the flags an aborted query leaves behind must not influence later answers)
+        if nontrivial {
+            if let Some(v) = victim(&job.dag, q) {
+                let ff = FailingFind { inner: odb, fail_on: std::cell::Cell::new(None), failed: std::cell::Cell::new(false) };
+                let mut graph = gix_revision::Graph::new(&ff, cg.as_ref());
+                ff.fail_on.set(Some(repo.id(d, v)));
+                let aborted = call(&mut graph);
+                ff.fail_on.set(None);
+                if ff.failed.get() {
+                    rep.bucket(if matches!(aborted, Ok(Err(_))) { "fault: query aborted" } else { "fault: lookup failed but query finished" });
+                    let retry = call(&mut graph);
+                    let rop = op.replacen("mb ", "mbretry ", 1);
+                    rep.case(&rop, &obs_of(&retry), true);
+                    rep.oracle_checked();
+                    let ok = matches!(&retry, Ok(Ok(got)) if set_of(&got.clone().unwrap_or_default()) == expected);
+                    if !ok {
+                        rep.oracle_failure(
+                            &format!("retry-after-failed-query {op}"),
+                            &format!(
+                                "after a query that failed on the lookup of commit {v}, the same query on the same Graph gives {retry:?}, expected {expected:?} ({by})"
+                            ),
+                            &op,
+                        );
+                    }
+                    // an ordinary, different query on the same Graph
+                    if qi > 0 {
+                        let q2 = &job.queries[qi - 1];
+                        if !(q2.others.is_empty() || q2.others.contains(&q2.first)) {
+                            // abort once more so that fresh leftovers exist
+                            ff.failed.set(false);
+                            let first2 = repo.id(d, q2.first);
+                            let others2: Vec<gix_hash::ObjectId> = q2.others.iter().map(|o| repo.id(d, *o)).collect();
+                            let next = catch(|| {
+                                gix_revision::merge_base(first2, &others2, &mut graph)
+                                    .map(|o| o.map(|v| v.iter().map(|id| repo.idx(d, id)).collect::<Vec<_>>()))
+                                    .map_err(|e| e.to_string())
+                            });
+                            let want2 = set_of(&brute_merge_bases(&job.dag, q2));
+                            rep.oracle_checked();
+                            let ok2 = matches!(&next, Ok(Ok(got)) if set_of(&got.clone().unwrap_or_default()) == want2);
+                            if !ok2 {
+                                rep.oracle_failure(
+                                    &format!("query-after-failed-query {op}"),
+                                    &format!(
+                                        "after a query that failed part-way, merge_base({}, {:?}) on the same Graph gives {next:?}, maximal common ancestors are {want2:?}",
+                                        q2.first, q2.others
+                                    ),
+                                    &op,
+                                );
+                            }
+                        }
+                    }
+                } else {
+                    rep.bucket("fault: victim never looked up (commit-graph or early result)");
                 }
             }
         }
